@@ -4,7 +4,7 @@ CONSTANTS Parent <- TBlkParent  Area <- TBlkArea  Height <- TBlkHeight  Sym <- T
 CONSTANTS Targets <- TBlkTargetsAll  Vals <- ValsT  Facs <- FacsT  Masses <- MassesT  Maps <- MapsT  FracMaps <- FracMapsT  AddMaps <- AddMapsT  SetMaps <- SetMapsT
 CONSTANTS AdjSets <- AdjSetsT  EnrFracs <- EnrFracsT  AdjMFs <- AdjMFsT
 CONSTANTS HDom <- HDom123  HTargets <- TBlkHAll  HVals <- HDom123
-CONSTANTS LeafVolCut <- LeafVolCutEnv  ScaleRaises <- ScaleRaisesEnv
+CONSTANTS WithLump <- No  LeafVolCut <- LeafVolCutEnv  ScaleRaises <- ScaleRaisesEnv
 INIT InitB
 NEXT NextB
 CONSTRAINT Bound
